@@ -30,7 +30,11 @@ const DICT: [&str; 105] = [
 ];
 
 fn valid_program(t: &mut Tape) -> String {
-    let body = valid_program_body(t);
+    valid_program_with(t, false)
+}
+
+fn valid_program_with(t: &mut Tape, always_laid_out: bool) -> String {
+    let body = valid_program_body(t, always_laid_out);
     if t.bool(10) {
         // an interpreter line in front of the program
         return format!("#!/usr/bin/env lua\n{}", body);
@@ -38,14 +42,15 @@ fn valid_program(t: &mut Tape) -> String {
     body
 }
 
-fn valid_program_body(t: &mut Tape) -> String {
+fn valid_program_body(t: &mut Tape, always_laid_out: bool) -> String {
     let mode = t.weighted(&[3, 4, 2]);
     let block = match mode {
         0 => gen_tree(t, &SynOpts::lua51()).0,
         1 => gen_tree(t, &SynOpts::luau()).0,
         _ => gen_program(t, &GenOpts::luau()).block,
     };
-    if t.bool(100) {
+    let block = crate::gen::context::maybe_wrap(block, t, mode != 0, 40).0;
+    if always_laid_out || t.bool(100) {
         let mut lo = LayoutOpts::all(true);
         lo.trailing_newline = t.bool(200);
         luaprint::print_layout(&block, t, &lo)
@@ -472,6 +477,48 @@ fn run(ctx: &RunCtx) {
             }
         }
     });
+    // (f) bundles of many modules (module names run through the generated identifiers: one letter,
+    // two letters, and must skip digits and keywords): every count in a few windows x 3 generators
+    let counts: Vec<usize> = (50..=70).chain(100..=104).chain([1, 2, 26, 27, 300, 700]).collect();
+    ctx.enumerate("wide_bundles", counts.len() as u64 * 3, |i, st| {
+        let n = counts[(i / 3) as usize];
+        let g = (i % 3) as usize;
+        let mut files = vec![];
+        let mut entry = String::new();
+        for k in 0..n {
+            entry.push_str(&format!("local m{k} = require(\"./m{k}\")\n"));
+            files.push((format!("src/m{k}.lua"), format!("return {{ {k} }}\n")));
+        }
+        entry.push_str("return m0\n");
+        files.insert(0, ("src/main.lua".to_string(), entry));
+        let config_text = format!("{{ rules: [], generator: {}, bundle: {{ require_mode: \"path\" }} }}", generators[g]);
+        st.class("wide_bundle_case");
+        let config = match dl::parse_config(&config_text) {
+            Ok(c) => c,
+            Err(e) => return CaseResult::Fail(Failure::new(format!("harness: configuration rejected: {}", e), json!({"kind": "bundle", "files": files, "config": config_text}))),
+        };
+        let replay = json!({"kind": "bundle", "files": files, "config": config_text});
+        match dl::process_project(&files, "src/main.lua", "out/main.lua", config) {
+            Err(dl::DlError::Panic(p)) => CaseResult::Fail(panic_failure("process (bundling)", p, replay)),
+            Err(e) => CaseResult::Fail(Failure::new(format!("bundling {} plain modules fails: {}", n, e), replay)),
+            Ok((resources, errs)) => {
+                if !errs.is_empty() {
+                    return CaseResult::Fail(Failure::new(format!("bundling {} plain modules reports errors: {:?}", n, errs), replay));
+                }
+                let Ok(out) = resources.get("out/main.lua") else { return CaseResult::Fail(Failure::new("no bundle written and no error reported", replay)) };
+                match dl::dl_parse(&out, false) {
+                    Err(p) => CaseResult::Fail(panic_failure("re-parsing the bundle", p, replay)),
+                    Ok(Err(e)) => CaseResult::Fail(Failure::new(format!("the bundle of {} modules does not parse again with darklua's own parser: {}", n, e), replay)),
+                    Ok(Ok(_)) => {
+                        if let Err(e) = luasyn::parse(&out, Mode::Luau) {
+                            return CaseResult::Fail(Failure::new(format!("the bundle of {} modules is not valid Luau: {} (line {})", n, e.msg, e.line), replay));
+                        }
+                        CaseResult::Pass { nontrivial: Some(hash_parts(&[config_text.as_bytes(), &(n as u32).to_le_bytes()])) }
+                    }
+                }
+            }
+        }
+    });
     ctx.isolate("texts");
     ctx.isolate("pipelines");
     let n = ctx.tier.pick(600_000, 20_000_000);
@@ -494,10 +541,24 @@ fn run(ctx: &RunCtx) {
     let n2 = ctx.tier.pick(40_000, 1_500_000);
     ctx.search("pipelines", n2, 700, |tape, st| {
         let mut t = Tape::new(tape);
-        let source = valid_program(&mut t);
+        // a quarter of the cases: comments and blank lines everywhere and the retain_lines generator
+        // (rules that remove or re-order statements move the trivia of what they remove)
+        let retained = t.bool(64);
+        let source = valid_program_with(&mut t, retained);
         let mut config = cfg::gen_config(&mut t, &opts);
-        // spans incl. 0 and 1
-        if t.bool(128) {
+        if retained {
+            st.class("laid_out_program_with_retain_lines");
+            config["generator"] = json!("retain_lines");
+            // at least one rule that removes whole statements (their comments move to what follows)
+            const REMOVERS: [&str; 10] = ["remove_types", "remove_unused_variable", "remove_empty_do", "remove_unused_while", "remove_unused_if_branch", "filter_after_early_return", "remove_nil_declaration", "remove_debug_profiling", "remove_assertions", "remove_function_call_parens"];
+            let mut rules: Vec<Value> = config.get("rules").and_then(|r| r.as_array()).cloned().unwrap_or_default();
+            for _ in 0..1 + t.choose(2) {
+                let at = t.choose(rules.len() + 1);
+                rules.insert(at, json!(REMOVERS[t.choose(REMOVERS.len())]));
+            }
+            config["rules"] = json!(rules);
+        } else if t.bool(128) {
+            // spans incl. 0 and 1
             config["generator"] = json!({"name": if t.bool(128) { "dense" } else { "readable" }, "column_span": *t.pick(&[0usize, 1, 2, 3, 10, 80])});
         }
         let config = config.to_string();
